@@ -260,13 +260,22 @@ def _run_p(case):
             objcmp.compare(fails, tag, ras, rb, kap, pts=pts)
             ok, la, lb_ = objcmp.both(fails, tag + ".log_integral", lambda: ras.log_integral(), lambda: rb.log_integral())
             if ok:
-                objcmp.compare(fails, tag + ".log_integral", la, lb_, kap)
+                objcmp.compare(fails, tag + ".log_integral", la, lb_, kap, floor=1.0)
     return fails
 
 
 # ------------------------------------------------------------------------------------------ conditionals
 _COPS = ["condition_on_x", "set_y", "joint", "marginal", "conditional", "conditional_entropy", "mutual_information",
          "integrate_log_conditional", "integrate_log_conditional_y", "get_conditional_mu"]
+
+
+def _f64_net(c):
+    """The slice-vs-batch relation is exact only if the user's own control network is: a float32 network evaluated on a batch of
+    control inputs and on a slice of it may differ in the last float32 digit (different batch shapes), which is not the library's
+    doing.  The single-precision-network regime is exercised by the other conditional checks."""
+    if "f32_net" in c:
+        c = dict(c, f32_net=False)
+    return c
 
 
 def _pool_c(tier):
@@ -295,7 +304,7 @@ def _strategy_c(shapes):
         Rc, Rx = (n, 1) if carrier == "cond" else (1, n)
         kappa = draw(st.sampled_from([10.0, 100.0]))
         return {"Dx": Dx, "Dy": Dy, "Rc": Rc, "Rx": Rx, "n": n, "N": N, "kind": kind, "op": op, "carrier": carrier,
-                "idx": _idx(draw, n), "c": draw(gen.cond_params(kind, Rc, Dx, Dy, kappa)),
+                "idx": _idx(draw, n), "c": _f64_net(draw(gen.cond_params(kind, Rc, Dx, Dy, kappa))),
                 "px": draw(gen.measure_params("pdf", Rx, Dx, kappa)),
                 "q": draw(gen.measure_params("pdf", n, Dx + Dy, kappa)),
                 "x": draw(gen.arr((N, Dx), -2.5, 2.5)), "yn": draw(gen.arr((n, Dy), -2.5, 2.5))}
